@@ -131,9 +131,8 @@ func c01Run(ci any) Result {
 	if fwd != nil && cur.Kind == 'D' && cur.FwdDone && !rColonClash(c.Routes) && !rHasTextAfterStar(c.Routes) {
 		// the forward must leave the context exactly as a request for that path finds it
 		main := cur
-		var plain rObs
-		plain.shared = cur.shared
-		rServe(e, &plain, *fwd)
+		rServe(e, &cur, *fwd) // (the handlers record into cur)
+		plain := cur
 		if plain.Kind == 'D' {
 			if main.FwdPath != plain.PPath || strings.Join(main.FwdNames, "\x00") != strings.Join(plain.Names, "\x00") ||
 				strings.Join(main.FwdValues, "\x00") != strings.Join(plain.Values, "\x00") {
